@@ -181,6 +181,23 @@ func genC16(g *Gen) {
 		g.un(ops[g.r.Intn(len(ops))], mk(false, c, e+g.r.Intn(2)*4))
 		g.un(ops[g.r.Intn(4)], mk(true, c, e))
 	})
+	// Exp2 of integers from 250 up (2^n no longer fits 256 bits and is cut down in steps) and Exp10 of integers at both range ends
+	g.gridRun(60+12, 0.05, func(i int) {
+		if i < 60 {
+			n := 250 + i
+			if i >= 52 {
+				n = []int{1000, 1023, 1024, 5000, 12345, 20000, 20413, 20414}[i-52]
+			}
+			x := mk(g.r.Intn(4) == 0, big.NewInt(int64(n)), 0)
+			if g.r.Intn(3) == 0 {
+				x = mk(false, big.NewInt(int64(n*10+g.r.Intn(10))), -1)
+			}
+			g.un("Exp2", x)
+			return
+		}
+		n := []int{6100, 6111, 6112, 6140, 6144, 6145, -6170, -6176, -6177, -6178, 300, -300}[i-60]
+		g.un("Exp10", mk(n < 0, big.NewInt(int64(absInt(n))), 0))
+	})
 	// Exp2 / Exp10 split the argument into integer and fraction by reversing the fraction's digits: arguments whose fraction,
 	// read backwards, is a word-structured integer (h * 2^64 + {0, 1, 5, all ones}) * 10^k + r
 	two64 := new(big.Int).Lsh(big.NewInt(1), 64)
@@ -384,7 +401,7 @@ func (g *Gen) powSignGrid(share float64) {
 		c int64
 		e int
 	}{{2, 0}, {3, 0}, {7, 0}, {12345, 0}, {15, -1}, {5, -1}, {3, -2}, {15, 3080}, {2, -3000}}
-	targets := []int{6140, 6146, 6150, 6200, 6225, 6230, 7000, 40000, -6170, -6178, -6200, -6250, -6300, -7000, -40000}
+	targets := []int{6140, 6146, 6150, 6200, 6225, 6230, 7000, 40000, 1000000, -6170, -6178, -6200, -6250, -6300, -7000, -40000, -1000000}
 	g.gridRun(len(bases)*len(targets), share, func(i int) {
 		b, tgt := bases[i%len(bases)], targets[i/len(bases)]
 		lg := math.Log10(float64(b.c)) + float64(b.e)
@@ -481,14 +498,14 @@ func genC18(g *Gen) {
 		g.pow(x, y, g.r.Intn(6), true)
 	})
 	// powers of ten raised to integers far too large for the range (the exponent product leaves 64 bits)
-	bigYs := []string{"1000000000000000", "1500000000000001", "5000000000000000001", "4503599627370496", "6148914691236517206", "18446744073709551615", "18446744073709551617",
+	bigYs := []string{"500000", "350000", "30000000", "12340000", "2147484", "4294968", "1000000000000000", "1500000000000001", "5000000000000000001", "4503599627370496", "6148914691236517206", "18446744073709551615", "18446744073709551617",
 		"9223372036854775807", "9223372036854775808", "1e19", "1e20", "3e33", "9999999999999999999999999999999999", "1e6000"}
 	g.gridRun(len(bigYs)*4, 0.1, func(i int) {
 		y, err := d128.Parse(bigYs[i/4])
 		if err != nil {
 			return
 		}
-		xe := []int{2, -10, 4096, -3}[i%4]
+		xe := []int{2, -10, 4096, -3, -6176, 6111, 100, -250}[(i+i/4)%8]
 		x := mk(g.r.Intn(2) == 0, big.NewInt(1), xe)
 		g.pow(x, y, g.r.Intn(6), true)
 		g.pow(x, y.Neg(), g.r.Intn(6), true)
